@@ -68,7 +68,28 @@ fn numeric_sites(act: &SX) -> Vec<Vec<usize>> {
 /// file, in creation order: declaration order matters for them, so the next one goes right after.
 fn rewrite(r: &mut Rng, forms: &mut Vec<SX>, files: &mut Vec<(String, String)>, n: usize, src: &[String], ntop: &mut usize) -> Option<&'static str> {
     let sites = layer_sites(forms);
-    match r.pick_w(&[22, 14, 14, 12, 10, 10, 10, 8, 14]) {
+    match r.pick_w(&[22, 14, 14, 12, 10, 10, 10, 8, 14, 10]) {
+        9 => {
+            // a number inside an action -> $var, and the action itself -> the first argument of a
+            // two-parameter template whose SECOND parameter has the very name of that variable: the
+            // argument is substituted as it stands; the variable inside it is not the parameter
+            let (fi, ii) = *r.pick_opt(&sites)?;
+            let act = get_item(forms, fi, ii);
+            if act.atom().map(|s| s.starts_with('$') || s.starts_with('@')).unwrap_or(false) {
+                return None;
+            }
+            let ns = numeric_sites(&act);
+            let p = r.pick_opt(&ns)?.clone();
+            let val = act.get(&p)?.clone();
+            let (vname, tname, fname) = (format!("zs{n}"), format!("zu{n}"), format!("zf{n}"));
+            let act2 = act.replace_at(&p, a(format!("${vname}")));
+            set_item(forms, fi, ii, l(vec![a("t!"), a(tname.clone()), act2, a("XX")]));
+            let ti = *ntop;
+            *ntop += 2;
+            forms.insert(ti, l(vec![a("deftemplate"), a(tname), l(vec![a(fname.clone()), a(vname.clone())]), a(format!("${fname}"))]));
+            forms.insert(ti, l(vec![a("defvar"), a(vname), val]));
+            Some("template-arg-named-like-parameter")
+        }
         8 => {
             // an expansion that yields nothing, inserted into a layer's action list (preferably in
             // front of another expansion) or between top-level forms
@@ -253,7 +274,7 @@ impl Prop for C16 {
         "C16"
     }
     fn rule_text(&self) -> String {
-        "case = configuration from the general action grammar + 1-4 random neutral rewrites of it (layer action -> defalias, one alias for all keys that carry the same action; number -> defvar; action list -> defvar; action -> deftemplate / template-expand / t!, with a parameter and if-equal / if-not-equal guards; top-level form -> include file through the file-provider seam; (platform (linux ...) form) wrapper, also inside an included file; deflayer -> equivalent deflayermap) + one seeded history (gaps around the config's timeouts, repeats, virtual-key operations). Oracle: both texts are accepted or both rejected; the set of intercepted keys is equal; driven by the same history on fresh instances, one after the other, the output traces (tick, kind, key) are identical. non-trivial = both accepted, at least one rewrite applied and output produced; distinct = original x rewritten text hash.".into()
+        "case = configuration from the general action grammar + 1-4 random neutral rewrites of it (layer action -> defalias, one alias for all keys that carry the same action; number -> defvar; action list -> defvar; action -> deftemplate / template-expand / t!, with a parameter and if-equal / if-not-equal guards, with an argument that contains a variable named like a later parameter; top-level form -> include file through the file-provider seam; (platform (linux ...) form) wrapper, also inside an included file; deflayer -> equivalent deflayermap) + one seeded history (gaps around the config's timeouts, repeats, virtual-key operations). Oracle: both texts are accepted or both rejected; the set of intercepted keys is equal; driven by the same history on fresh instances, one after the other, the output traces (tick, kind, key) are identical. non-trivial = both accepted, at least one rewrite applied and output produced; distinct = original x rewritten text hash.".into()
     }
     fn runs(&self, tier: Tier) -> u64 {
         match tier {
